@@ -156,6 +156,12 @@ type ListAttr struct {
 	// OrderedByUser indicates whether the entries are "ordered-by user".
 	// Otherwise the order is determined by the system.
 	OrderedByUser bool
+
+	// hasMinElements and hasMaxElements record whether the node has a
+	// min-elements or max-elements statement (written in its module or
+	// put there by a deviation), as opposed to the default value.
+	hasMinElements bool
+	hasMaxElements bool
 }
 
 // parseOrderedBy parses the ordered-by value and classifies the list/leaf-list
@@ -664,6 +670,7 @@ func ToEntry(n Node) (e *Entry) {
 			e.addError(err)
 		}
 		var err error
+		e.ListAttr.hasMaxElements, e.ListAttr.hasMinElements = s.MaxElements != nil, s.MinElements != nil
 		if e.ListAttr.MaxElements, err = semCheckMaxElements(s.MaxElements); err != nil {
 			e.addError(err)
 		}
@@ -703,6 +710,7 @@ func ToEntry(n Node) (e *Entry) {
 			e.addError(err)
 		}
 		var err error
+		e.ListAttr.hasMaxElements, e.ListAttr.hasMinElements = s.MaxElements != nil, s.MinElements != nil
 		if e.ListAttr.MaxElements, err = semCheckMaxElements(s.MaxElements); err != nil {
 			e.addError(err)
 		}
@@ -1228,6 +1236,7 @@ func (e *Entry) ApplyDeviate(deviateOpts ...DeviateOpt) []error {
 							continue
 						}
 						deviatedNode.ListAttr.MinElements = devSpec.ListAttr.MinElements
+						deviatedNode.ListAttr.hasMinElements = true
 					}
 
 					if devSpec.deviatePresence.hasMaxElements {
@@ -1236,6 +1245,7 @@ func (e *Entry) ApplyDeviate(deviateOpts ...DeviateOpt) []error {
 							continue
 						}
 						deviatedNode.ListAttr.MaxElements = devSpec.ListAttr.MaxElements
+						deviatedNode.ListAttr.hasMaxElements = true
 					}
 
 					if devSpec.deviatePresence.hasUnits || devSpec.Units != "" {
@@ -1291,12 +1301,17 @@ func (e *Entry) ApplyDeviate(deviateOpts ...DeviateOpt) []error {
 							appendErr(fmt.Errorf("tried to deviate min-elements on a non-list type %s", deviatedNode.Kind))
 							continue
 						}
-						if deviatedNode.ListAttr.MinElements != devSpec.ListAttr.MinElements {
+						switch {
+						case deviatedNode.ListAttr.MinElements != devSpec.ListAttr.MinElements:
 							// Argument value must match:
 							// https://tools.ietf.org/html/rfc7950#section-7.20.3.2
 							appendErr(fmt.Errorf("min-element value %d differs from deviation's min-element value %d for entry %v", devSpec.ListAttr.MinElements, deviatedNode.ListAttr.MinElements, d.DeviatedPath))
+						case !deviatedNode.ListAttr.hasMinElements:
+							// ... and the statement must be there.
+							appendErr(fmt.Errorf("%s: tried to deviate delete a min-elements statement that doesn't exist", Source(e.Node)))
 						}
 						deviatedNode.ListAttr.MinElements = 0
+						deviatedNode.ListAttr.hasMinElements = false
 					}
 
 					if devSpec.deviatePresence.hasMaxElements {
@@ -1304,10 +1319,14 @@ func (e *Entry) ApplyDeviate(deviateOpts ...DeviateOpt) []error {
 							appendErr(fmt.Errorf("tried to deviate max-elements on a non-list type %s", deviatedNode.Kind))
 							continue
 						}
-						if deviatedNode.ListAttr.MaxElements != devSpec.ListAttr.MaxElements {
+						switch {
+						case deviatedNode.ListAttr.MaxElements != devSpec.ListAttr.MaxElements:
 							appendErr(fmt.Errorf("max-element value %d differs from deviation's max-element value %d for entry %v", devSpec.ListAttr.MaxElements, deviatedNode.ListAttr.MaxElements, d.DeviatedPath))
+						case !deviatedNode.ListAttr.hasMaxElements:
+							appendErr(fmt.Errorf("%s: tried to deviate delete a max-elements statement that doesn't exist", Source(e.Node)))
 						}
 						deviatedNode.ListAttr.MaxElements = math.MaxUint64
+						deviatedNode.ListAttr.hasMaxElements = false
 					}
 
 				default:
